@@ -24,7 +24,7 @@ NODE_CONFIGS_T = NODE_CONFIGS_Q + [(('S1', 'none'), ('S2', 'gpu'), ('S1', 'nvme+
 # a P4 switch among the nodes (it takes no services here): first, last and between two VMs in the description
 NODE_CONFIGS_P4 = [(('S1', 'p4'),), (('S1', 'p4'), ('S1', 'none')), (('S1', 'gpu'), ('S2', 'p4')), (('S1', 'none'), ('S2', 'p4'), ('S2', 'nvme+shared'))]
 NODE_CONFIGS_SIZING = [(('S1', 'gpu', 'hints'),), (('S1', 'none'), ('S2', 'nvme+shared', 'unsized')), (('S2', 'gpu', 'hints'), ('S1', 'none'))]
-KINDS = ('bridge', 'bridge_vlan', 'v4ext', 'v6ext', 'pm_in', 'pm_out')   # bridge_vlan: its service port is labelled, but not named
+KINDS = ('bridge', 'bridge_vlan', 'v4ext', 'v6ext', 'pm_in', 'pm_out', 'v4ext2')   # v4ext2: an external service on BOTH ports of the node's NIC   # bridge_vlan: its service port is labelled, but not named
 CAPS = [(2, 8, 10), (4, 16, 100), (8, 32, 500)]
 
 
@@ -63,6 +63,10 @@ def build(nodes_cfg, services, node_order, svc_order, facility):
         # port assignment depends on the service's index in the description, not on the creation order
         port_idx = [jj for jj, (_, kk) in enumerate(services) if kk == k].index(j)
         port = [i for i in n.components['nic'].interface_list if i.name.endswith(f'p{port_idx + 1}')][0]
+        if kind == 'v4ext2':
+            both = sorted(n.components['nic'].interface_list, key=lambda i: i.name)
+            t.add_network_service(name=f'svc{j}', nstype=ServiceType.FABNetv4Ext, interfaces=both)
+            continue
         used[k] = slot + 1
         name = f'svc{j}'
         if kind == 'bridge':
@@ -296,8 +300,8 @@ def descriptions(tier):
                 pool = opts
             for ms in itertools.combinations_with_replacement(pool, size):
                 per = {}
-                for _, k in ms:
-                    per[k] = per.get(k, 0) + 1
+                for kd_, k in ms:
+                    per[k] = per.get(k, 0) + (2 if kd_ == 'v4ext2' else 1)
                 if any(c > 2 for c in per.values()):
                     continue           # a SmartNIC has two ports
                 if any(kd == 'pm_in' for kd, _ in ms) and not any(kd == 'bridge' for kd, _ in ms):
